@@ -173,12 +173,12 @@ func lemmaSum20(s string) {
 //@ contract (*BroadcastRawUDPConn).ReadFrom
 //@   requires upc != nil && upc.PacketConn != nil
 //@   modifies b
-//@   after `n, _, err := upc.PacketConn.ReadFrom(pkt)` claim[buffer] len(pkt) == 68 + len(b)
-//@   after `srcAddr := &net.UDPAddr{` claim[acc-len] n >= 20 && n <= len(pkt)
-//@   after `srcAddr := &net.UDPAddr{` claim[acc-version] int(pkt[0])/16 == 4
-//@   after `srcAddr := &net.UDPAddr{` claim[acc-hlen] int(pkt[0])%16*4 >= 20 && int(pkt[0])%16*4 <= specWord(string(pkt), 2) && specWord(string(pkt), 2) <= n
-//@   after `srcAddr := &net.UDPAddr{` claim[acc-proto] int(pkt[9]) == 17
-//@   after `srcAddr := &net.UDPAddr{` claim[acc-udp] n - int(pkt[0])%16*4 >= 8
+//@   after `call:ReadFrom` claim[buffer] len(pkt) == 68 + len(b)
+//@   after `call:copy` claim[acc-len] n >= 20 && n <= len(pkt)
+//@   after `call:copy` claim[acc-version] int(pkt[0])/16 == 4
+//@   after `call:copy` claim[acc-hlen] int(pkt[0])%16*4 >= 20 && int(pkt[0])%16*4 <= specWord(string(pkt), 2) && specWord(string(pkt), 2) <= n
+//@   after `call:copy` claim[acc-proto] int(pkt[9]) == 17
+//@   after `call:copy` claim[acc-udp] n - int(pkt[0])%16*4 >= 8
 //@   after `srcAddr := &net.UDPAddr{` claim[acc-unread] len(buf.Buffer.data) == n - int(pkt[0])%16*4 - 8
 //@   after `call:copy` claim[acc-payload] dhcpLen == specWord(string(pkt), 2) - int(pkt[0])%16*4 - 8 && dhcpLen >= 0
 //@   after `srcAddr := &net.UDPAddr{` claim[acc-port] upc.boundAddr != nil ==> upc.boundAddr.Port == specWord(string(pkt), int(pkt[0])%16*4+2)
